@@ -35,10 +35,14 @@ from sexp import Sym, dumps
 import gen_oal_text as G
 
 PROP = 'C08'
+RUN_EXCEPTION_LIMIT = 0.15     # largest tolerated share of generated bodies that fail to run under the base spelling
 RULE = ('programs x 5 spellings (lower, UPPER, Capitalised, 2 random per-letter mixes incl. blank/tab inside END '
         'tokens); parse-kind programs cover most grammar productions with random layout, exec-kind programs run on a '
         '3-class population and are prebuilt as a function body; non-trivial = at least 4 re-spelled keyword '
-        'occurrences and (exec) the lower-case program ran without exception; distinct by lower-case text')
+        'occurrences and (exec) the lower-case program ran without exception; distinct by lower-case text.  Families '
+        'that make the reading of a keyword visible: side-effecting domain functions as right operand of and/or and '
+        'under the unary keyword operator not (operand evaluated exactly once), select one/any across a to-many '
+        'association from an instance with several related instances; at most 15 % of the bodies may fail to run')
 EXHAUSTIVE = {'quick': False, 'thorough': False}
 ASSUMPTIONS = [
     'domain: only keyword occurrences in keyword ROLE are re-spelled; a keyword token in a name position (kw_as_identifier: '
@@ -120,14 +124,23 @@ def _case(rng, kind, tag):
 
 def generate(ctx):
     rng = ctx.rng.fork('op')
-    for i in range(ctx.pick(180, 4000)):
+    for i in range(ctx.pick(100, 4000)):
         yield _case(rng.fork(i), 'op' if i % 4 else 'dattr', ['op', i])
     rng = ctx.rng.fork('exec')
-    for i in range(ctx.pick(180, 5000)):
+    for i in range(ctx.pick(100, 5000)):
         yield _case(rng.fork(i), 'exec', ['exec', i])
     rng = ctx.rng.fork('parse')
-    for i in range(ctx.pick(800, 16000)):
+    for i in range(ctx.pick(500, 16000)):
         yield _case(rng.fork(i), 'parse', ['parse', i])
+    # every op / dattr / exec case has been evaluated by now (the parse stream is several chunks long).  The programs
+    # are generated to RUN: a body that ends in an exception under the lower-case spelling is compared by exception
+    # class only, so effects after the failing statement are not observed - bound their share (a stub of the harness
+    # that no longer fits the interpreter's calling convention once made every domain-function call raise)
+    n_run = ctx.stats.get('run_ok', 0) + ctx.stats.get('run_exception', 0)
+    if n_run and ctx.stats.get('run_exception', 0) > max(3, RUN_EXCEPTION_LIMIT * n_run):
+        raise common.HarnessError('%d of %d generated bodies end in an exception under the lower-case spelling (more '
+                                  'than %.0f %%): the interpreter families are not exercising what they are meant to'
+                                  % (ctx.stats.get('run_exception', 0), n_run, 100 * RUN_EXCEPTION_LIMIT))
 
 
 def search(ctx, broken):
@@ -212,7 +225,8 @@ def _run(text, n, home='f'):
     m = _m['exec_loader'].build_metamodel()
     funcs = G.exec_functions(m)
     funcs['LOG'] = _Log(m)
-    m.find_symbol = funcs.__getitem__            # the interpreter resolves ::f() / LOG::f() through domain.find_symbol
+    # the interpreter resolves ::f() / LOG::f() through domain.find_symbol(name[, kind or kinds])
+    m.find_symbol = lambda name, kind=None: funcs[name]
     try:
         if home == 'f':
             r = _m['interpret'].run_function(m, 'f', text, {'n': n})
@@ -360,10 +374,10 @@ def _tok_obs(text):
     try:
         toks = G.ply_tokens(text + '\n')
     except Exception as e:
-        if G.lexing_is_harness_fault(text):
-            raise common.HarnessError('the harness-driven lexer raised %s: %s on %r, but oal.parse copes with the same '
-                                      'text' % (type(e).__name__, str(e)[:200], text[:200]))
-        return [Sym('lexer-exception'), type(e).__name__]     # oal.parse fails on it too: D reports that outcome
+        # a lexer driven by the HARNESS over the whole text raised: an observation (the model has a token stream for
+        # every text, so K fails on the case), never a failing input by itself and never a crash of the harness; if
+        # oal.parse fails on the text too, D reports that outcome
+        return [Sym('lexer-raised'), type(e).__name__]
     for t in toks:
         kind, lex = t[0], t[1]
         if kind in G.KWSET or kind in ('END_IF', 'END_FOR', 'END_WHILE'):
@@ -398,7 +412,8 @@ def run_impl(case):
     # with layout around it (equal after strip()): nothing may leak from one parse / run / prebuild into the next
     broken = base[:len(base) // 2] + ' %s ) ( ' + base[len(base) // 2:]
     sequence = [(m, t, 'full') for m, t in texts[1:2]] + [('rejected', broken, 'reject')] + \
-               [(m, t, 'full') for m, t in texts[2:]] + [('lower-again', base, 'full'),
+               [(m, t, 'full') for m, t in texts[2:4]] + [(m, t, 'noprebuild') for m, t in texts[4:]] + \
+               [('lower-again', base, 'full'),
                                                          ('lower-padded', '\n  ' + base + '  \n', 'noprebuild')]
     for mode, text, how in sequence:
         if how == 'reject':
